@@ -28,6 +28,8 @@ inductive BridgeAct where
   | send (port : Nat)       -- a valid broadcast arrives on `port`
   | occupy (port : Nat)     -- another socket binds `port`
   | release (port : Nat)
+  | foreign                 -- something that is none of this bridge's business happens (another bridge OBJECT with the same ports
+                            -- is stopped, or tries in vain to start): nothing changes for this one
 deriving Repr, DecidableEq
 
 def portFree (s : BridgeState) (p : Nat) : Bool := !s.others.contains p && !s.listening.contains p
@@ -42,6 +44,7 @@ def bridgeStep (s : BridgeState) : BridgeAct → BridgeState × Out
   | .send p => (s, if s.listening.contains p then .delivered else .dropped)
   | .occupy p => if portFree s p then ({ s with others := p :: s.others }, .ok) else (s, .busy)
   | .release p => ({ s with others := s.others.filter (· != p) }, .ok)
+  | .foreign => (s, .ok)
 
 def bridgeRunActs (s : BridgeState) : List BridgeAct → BridgeState × List Out
   | [] => (s, [])
